@@ -497,7 +497,13 @@ func (x *Exec) specEnv(cur, old State, vars map[string]SpecVar) *SpecEnv {
 		x.comp(cur, name)
 		x.comp(old, name)
 	}
-	return &SpecEnv{Vars: vars, Cur: cur, Old: old, Funcs: x.E.Funcs, CompSorts: x.E.CompSorts, Epoch: x.E.Epoch, EntryAlloc: x.comp(x.Entry, "alloc")}
+	env := &SpecEnv{Vars: vars, Cur: cur, Old: old, Funcs: x.E.Funcs, CompSorts: x.E.CompSorts, Epoch: x.E.Epoch, EntryAlloc: x.comp(x.Entry, "alloc")}
+	if x.acqState != nil {
+		env.Acq = x.fill(x.acqState)
+	} else if x.LockHavoc {
+		env.Acq = old // the lock was never taken on this path: acquisition state = entry state
+	}
+	return env
 }
 
 func (x *Exec) fill(st State) State {
